@@ -34,6 +34,10 @@ CHECKS = {
    technique="exhaustive crash-point enumeration: every prefix of the strace-recorded write/ftruncate sequence of the unmodified writer (hard death) and every file-operation index in two orderly death modes, each surviving file read back in a separate process; plus explicit-state enumeration of all file-mode histories to depth 3 against a reference model",
    text="For export() of a 4-step process tensor and for a file-backed PT-TEMPO run, the writer child runs unmodified under strace; all 21 prefixes of its 20 file writes are materialised and imported as 'file' and 'simple' (the prefix model is validated against writers that really die with os._exit at every file operation: byte-identical files), and the writer is killed orderly (unhandled exception, sys.exit) after every file operation and before close(): every surviving file must raise, warn 'may be corrupt', or be complete and reproduce the reference dynamics; the cleanly closed file must open silently and complete. Mode machine: all 876 histories up to depth 3 over {create write/overwrite/temp, read, close, remove, export(overwrite F/T)} x {target missing, existing} against a model of who may replace or delete what.",
    note="Process death only (writes reach the page cache in order); torn writes/power loss and HDF5 cache evictions of large files are not modelled. Needs ptrace (strace)."),
+ "C19": dict(category="model_checking", design="4/C19",
+   technique="stateless model checking of thread interleavings on the real ProgressBar code under a cooperative settrace scheduler (iterative preemption bounding 0..2/3, virtual timer firing at any scheduling point, horizon 3 firings), plus exhaustive fault-point enumeration per API",
+   text="All interleavings of the calling thread with the progress timer's callbacks at source-line granularity with at most 2 (quick) / 3 (thorough) preemptions and at most 3 timer firings are executed on the real oqupy.util.ProgressBar for three drivers; in the terminal state no timer may be armed, nothing may have been written to the stream after exit() returned, no deadlock, no exception. For 9 APIs x 4 progress types x every (quick: strided above 60) invocation index of every user callable, and 4 structural faults, an exception is propagated out of the call and no timer may remain armed. Leaks in the three functions that use enter()/exit() without try/finally are recorded as known findings.",
+   note="Scheduling points are source lines of oqupy/util.py only; timers/locks/events of oqupy.util are replaced by cooperative stand-ins; byte-code-level preemption within a line and real OS scheduling are outside the model (a free-running smoke run with the real Timer is reported, not counted)."),
 }
 NOT_YET = "check not built yet in this round (see DESIGN.md sec. 8 build order)"
 
